@@ -1639,7 +1639,7 @@ func (p *Policy) Import(ctx context.Context, storage logical.Storage, key []byte
 	return p.ImportPublicOrPrivate(ctx, storage, key, true, randReader)
 }
 
-func (p *Policy) ImportPublicOrPrivate(ctx context.Context, storage logical.Storage, key []byte, isPrivateKey bool, randReader io.Reader) error {
+func (p *Policy) ImportPublicOrPrivate(ctx context.Context, storage logical.Storage, key []byte, isPrivateKey bool, randReader io.Reader) (retErr error) {
 	if p.SoftDeleted {
 		return errutil.UserError{Err: ErrSoftDeleted}
 	}
@@ -1647,6 +1647,27 @@ func (p *Policy) ImportPublicOrPrivate(ctx context.Context, storage logical.Stor
 	if p.Type == KeyType_ExternalKey {
 		return errors.New("unable to import keys to a policy of type external key")
 	}
+
+	// As in Rotate: if the import partially fails (in particular, if the
+	// policy cannot be persisted), restore the policy state so that a cached
+	// policy never carries a key version that storage did not receive.
+	priorLatestVersion := p.LatestVersion
+	priorMinDecryptionVersion := p.MinDecryptionVersion
+	priorKeySize := p.KeySize
+	var priorKeys keyEntryMap
+	if p.Keys != nil {
+		priorKeys = keyEntryMap{}
+		maps.Copy(priorKeys, p.Keys)
+	}
+
+	defer func() {
+		if retErr != nil {
+			p.LatestVersion = priorLatestVersion
+			p.MinDecryptionVersion = priorMinDecryptionVersion
+			p.KeySize = priorKeySize
+			p.Keys = priorKeys
+		}
+	}()
 
 	now := time.Now()
 	entry := KeyEntry{
